@@ -100,6 +100,18 @@ def discharge(obls, timeout_ms=10000, workers=None, second=True):
         with mp.get_context("fork").Pool(workers) as pool:
             for r in pool.imap_unordered(solve._work, jobs, chunksize=1):
                 results[r["idx"]] = r
+    # last resort for the few obligations every back end left open: the same query again with a long budget and little
+    # competition for the cores (a verdict must not flip because the machine was busy; at most 8, so that a tree on which
+    # many obligations fail is still reported in reasonable time)
+    if second:
+        late = [j for j, r in zip(jobs, results) if r["verdict"] == "unknown" and j[3] == "unsat"][:8]
+        if late:
+            with mp.get_context("fork").Pool(min(4, len(late))) as pool:
+                for r in pool.imap_unordered(solve._work_slow, late, chunksize=1):
+                    if r["verdict"] in ("sat", "unsat"):
+                        r["tried"] = results[r["idx"]].get("tried", []) + r["tried"]
+                        r["seconds"] += results[r["idx"]].get("seconds", 0.0)
+                        results[r["idx"]] = r
     for ob, r in zip(obls, results):
         r["smt2_len"] = len(ob.smt2)
         r["smt2"] = ob.smt2 if len(ob.smt2) < 20000 else None
